@@ -1,0 +1,23 @@
+//go:build !verif
+
+// Package verifhook holds scheduling and fault-injection seams used by the
+// deterministic simulator under /verif. With the "verif" build tag off every
+// function in this package is an empty inlinable stub.
+package verifhook
+
+// Enabled reports whether the hooks are compiled in.
+const Enabled = false
+
+func Yield(site string) {}
+
+func Spawn(kind string) uint64 { return 0 }
+
+func Start(tok uint64) {}
+
+func Exit(tok uint64) {}
+
+func Note(site, detail string) {}
+
+func Fault(site, detail string) error { return nil }
+
+func MapOrder(site string, n int) []int { return nil }
